@@ -90,7 +90,16 @@ func VH_C01_Negotiate() {
 	st := vhStore("dir")
 	conf := vhConf(st)
 	w := vhNewWorld(conf, 1)
-	refs := []string{"t1", "ti", w.dImg1.String(), w.dIdx1.String(), w.dArt1.String()}
+	// an index whose child descriptor embeds content (the optional OCI "data" field) of the
+	// right length that is NOT the child's content: embedded data is client-supplied
+	fake := make([]byte, len(w.img1))
+	copy(fake, w.img1)
+	fake[len(fake)-2] ^= 1
+	cdesc := vhDesc(types.MediaTypeOCI1Manifest, w.img1)
+	cdesc.Data = fake
+	idxData := vhIndexDoc([]types.Descriptor{cdesc}, nil, "")
+	vh.Assert(vhPutManifest(w.s, "a", "td", types.MediaTypeOCI1ManifestList, idxData).Status() == 201, "C01.setup")
+	refs := []string{"t1", "ti", w.dImg1.String(), w.dIdx1.String(), w.dArt1.String(), "td"}
 	ref := refs[vh.Choice("ref", len(refs))]
 	lists := [][]string{
 		nil, // no Accept header
